@@ -30,19 +30,19 @@ def Stopped (s : St) : Prop :=
 
 theorem main_loop (b : Base) (a0 : Act) (ha0 : a0.A = 0) :
     ∀ (n : Nat) (st : CtlState) (s s' : St), Holds b a0 [] s → (runLoop n st).run s = (.ok (), s') →
-      Holds b a0 [] s' ∧ Stopped s'
+      Holds b a0 [] s' ∧ Stopped s' ∧ TExt s s'
   | 0, st, s, s', _, hex => by rw [runLoop_zero] at hex; cases hex
   | n + 1, st, s, s', hh, hex => by
     rw [runLoop] at hex
     by_cases hns : (s.pc = -1 ∨ s.pc ≥ curSize s)
     · simp only [run_bind, run_get, run_ite, hns, if_true, run_pure] at hex
       cases hex
-      exact ⟨hh, Or.inl hns⟩
+      exact ⟨hh, Or.inl hns, TExt.refl _⟩
     · cases hi : (fnOf s s.curfunc).code[s.pc.toNat]? with
       | none =>
         simp only [run_bind, run_get, run_ite, hns, if_false, hi, run_pure] at hex
         cases hex
-        exact ⟨hh, Or.inr hi⟩
+        exact ⟨hh, Or.inr hi, TExt.refl _⟩
       | some i =>
         simp only [run_bind, run_get, run_ite, hns, if_false, hi] at hex
         rcases hx : (exec n i).run s with ⟨r, s1⟩
@@ -54,7 +54,9 @@ theorem main_loop (b : Base) (a0 : Act) (ha0 : a0.A = 0) :
           | zero => simp only [VM.exec, run_throw] at hx; cases hx
           | succ m =>
             have hv : VmStep s s1 := ⟨m, i, hns, hi, hx⟩
-            exact main_loop b a0 ha0 (m + 1) st s1 s' (holds_step hh hv (by rw [ha0]; exact Nat.zero_le _)) hex
+            obtain ⟨hh1, he1⟩ := holds_step_ext hh hv (by rw [ha0]; exact Nat.zero_le _)
+            obtain ⟨r1, r2, r3⟩ := main_loop b a0 ha0 (m + 1) st s1 s' hh1 hex
+            exact ⟨r1, r2, he1.trans r3⟩
 
 /-- when the loop has stopped, the bottom activation is the only one, and it is the top-level
 text (an activation with a return address never runs off its end) -/
@@ -145,5 +147,257 @@ theorem load_ok {s s1 : St} (isFn : Nat → Bool) (es : List Expr) (code : List 
         rw [← hml]
         simp
   · cases h
+
+/-! ## The annotation of `mainfunc` while a text runs -/
+
+/-- nothing is claimed about the old code (the run never enters it); behind it, the fragment's states -/
+def mainAnn (m : Nat) (as : List AState) : Ann := List.replicate m none ++ as.map some
+
+theorem annAt_mainAnn_lt (m : Nat) (as : List AState) (i : Nat) (h : i < m) : annAt (mainAnn m as) i = none := by
+  unfold annAt mainAnn
+  rw [List.getElem?_append_left (by simpa using h)]
+  simp [h]
+
+theorem annAt_mainAnn_ge (m : Nat) (as : List AState) (i : Nat) : annAt (mainAnn m as) (m + i) = as[i]? := by
+  unfold annAt mainAnn
+  rw [List.getElem?_append_right (by simp)]
+  simp only [List.length_replicate, Nat.add_sub_cancel_left, List.getElem?_map]
+  cases as[i]? <;> rfl
+
+/-- **Placement instead of shifting**: a fragment placed behind `old` in a function whose loop
+ids are unique is locally verified there, with the old code left unannotated. -/
+theorem main_stepVerified (F : Fn) (old code : List BInstr) (as : List AState) (hF : F.code = old ++ code)
+    (hfrag : FragOK mainEnv code as) (hu : LoopsUnique F.code) : StepVerified F (mainAnn old.length as) := by
+  obtain ⟨hlen, _, hk⟩ := hfrag
+  refine ⟨fun pc a i ha hi => ?_⟩
+  rcases Nat.lt_or_ge pc old.length with hlt | hge
+  · rw [annAt_mainAnn_lt _ _ _ hlt] at ha; cases ha
+  · obtain ⟨j, rfl⟩ : ∃ j, pc = old.length + j := ⟨pc - old.length, by omega⟩
+    have hj : j < code.length := by
+      have : old.length + j < F.code.length := by
+        rcases Nat.lt_or_ge (old.length + j) F.code.length with h | h
+        · exact h
+        · rw [List.getElem?_eq_none_iff.mpr h] at hi; cases hi
+      rw [hF, List.length_append] at this
+      omega
+    have hplaced : Placed F (mainAnn old.length as) old.length code as := by
+      refine ⟨fun i _ => ?_, fun i _ => annAt_mainAnn_ge _ _ _⟩
+      rw [hF, List.getElem?_append_right (by omega)]
+      simp
+    have hok := hk F (mainAnn old.length as) old.length hplaced ⟨hu, fun i hi => by cases hi⟩ j hj
+    unfold okAt at hok
+    rw [ha, hi] at hok
+    simp only [Bool.and_eq_true] at hok
+    obtain ⟨hwf, hrest⟩ := hok
+    refine ⟨hwf, ?_⟩
+    split at hrest
+    · rename_i succs hs
+      exact ⟨succs, hs, fun p hp => succOk_elim _ p (List.all_eq_true.mp hrest p hp)⟩
+    · cases hrest
+
+/-! ## `mainfunc` between texts -/
+
+/-- what is known of `mainfunc` between texts: compiled code of the grammar, loop ids unique
+and allocated, the pc at its end -/
+structure MainOK (s : St) : Prop where
+  user : (fnOf s mainFn).user = false
+  code : AllOK (szS s) (fnOf s mainFn).code
+  ids : idsIn (fnOf s mainFn).code 0 s.loops.length
+  pc : s.pc = ((fnOf s mainFn).code.length : Int)
+
+/-- the state `runText` runs: the code of the text appended to `mainfunc` -/
+def loaded (s1 : St) (code : List Instr) : St :=
+  { s1 with fns := s1.fns.set mainFn { (fnOf s1 mainFn) with code := (fnOf s1 mainFn).code ++ code }, curfunc := mainFn }
+
+theorem loaded_main (s1 : St) (code : List Instr) (h : 2 ≤ s1.fns.length) :
+    fnOf (loaded s1 code) mainFn = { (fnOf s1 mainFn) with code := (fnOf s1 mainFn).code ++ code } := by
+  show (s1.fns.set 0 _).getD 0 {} = _
+  rw [List.getD_eq_getElem?_getD, List.getElem?_set_self (by omega)]
+  rfl
+
+theorem loaded_other (s1 : St) (code : List Instr) (id : Nat) (h : id ≠ 0) : fnOf (loaded s1 code) id = fnOf s1 id := by
+  show (s1.fns.set 0 _).getD id {} = s1.fns.getD id {}
+  rw [List.getD_eq_getElem?_getD, List.getD_eq_getElem?_getD, List.getElem?_set_ne (by omega)]
+
+theorem loaded_len (s1 : St) (code : List Instr) : (loaded s1 code).fns.length = s1.fns.length := by
+  show (s1.fns.set 0 _).length = _
+  rw [List.length_set]
+
+theorem wf_loaded {s1 : St} (code : List Instr) (hw : WF s1) : WF (loaded s1 code) := by
+  have hl := loaded_len s1 code
+  refine ⟨fun id h2 hlt => ?_, by rw [hl]; exact hw.two, hw.loopstack, by rw [hl]; exact hw.scopes, by rw [hl]; exact hw.heap,
+    by rw [hl]; exact hw.lazies, by rw [hl]; exact hw.data⟩
+  have hg := hw.fns id h2 (by rw [← hl]; exact hlt)
+  have hfo := loaded_other s1 code id (by omega)
+  have hsz : szS (loaded s1 code) = szS s1 := by simp only [szS, hl]; rfl
+  refine ⟨by rw [hfo]; exact hg.user, by rw [hfo]; exact hg.sig, by rw [hfo, hsz]; exact hg.code, ?_⟩
+  have : fnB (loaded s1 code) id = fnB s1 id := by
+    simp only [fnB, hfo]; rfl
+  rw [this]; exact hg.verified
+
+/-! ## Running the loaded text -/
+
+/-- **`Run` on a loaded text that returns a value leaves the interpreter at rest**, with the
+table invariant and the facts about `mainfunc` kept. `s1` is the state after `LoadExpressions`
+(before the code is appended): nothing on the data and address stacks, `mainfunc`'s loop ids
+below `N`, those of the text from `N` on. -/
+theorem run_loaded {s1 : St} (code : List Instr) (as : List AState) (τ : AState) (N fuel : Nat) (v : Val) (s' : St)
+    (hw : WF s1) (hd : s1.data = []) (ha : s1.addr = [])
+    (hu : (fnOf s1 mainFn).user = false) (hold : AllOK (szS s1) (fnOf s1 mainFn).code)
+    (hoids : idsIn (fnOf s1 mainFn).code 0 N) (hids : idsIn code N s1.loops.length) (hN : N ≤ s1.loops.length)
+    (hpc : s1.pc = ((fnOf s1 mainFn).code.length : Int)) (hcode : AllOK (szS s1) code)
+    (hfrag : FragOK mainEnv (B s1.loops code) as) (h0 : as[0]? = some restState) (hτ : as[code.length]? = some τ)
+    (hk : τ.k = 0) (hfr : τ.frames = []) (hb : τ.base ≤ 1)
+    (hex : (run fuel).run (loaded s1 code) = (.ok v, s')) :
+    WF s' ∧ MainOK s' ∧ s'.data = [] ∧ s'.linear = s1.linear ∧ s'.addr = [] ∧ s'.loopstack = [] ∧ s'.curfunc = mainFn ∧
+      vok s'.fns.length v = true := by
+  obtain ⟨s2, hs2⟩ : ∃ s2, s2 = loaded s1 code := ⟨_, rfl⟩
+  rw [← hs2] at hex
+  have hw2 : WF s2 := by rw [hs2]; exact wf_loaded code hw
+  have hmain : fnOf s2 mainFn = { (fnOf s1 mainFn) with code := (fnOf s1 mainFn).code ++ code } := by
+    rw [hs2]; exact loaded_main s1 code hw.two
+  have hsz : szS s2 = szS s1 := by rw [hs2]; simp only [szS, loaded_len]; rfl
+  have hloops : s2.loops = s1.loops := by rw [hs2]; rfl
+  obtain ⟨old, hold'⟩ : ∃ old, old = (fnOf s1 mainFn).code := ⟨_, rfl⟩
+  have hcodeM : (fnOf s2 mainFn).code = old ++ code := by rw [hmain, hold']
+  have hidsM : idsIn (old ++ code) 0 s1.loops.length := by
+    rw [hold']; exact idsIn_app hoids hids (Nat.zero_le _) hN
+  have hBM : (fnB s2 mainFn).code = B s1.loops old ++ B s1.loops code := by
+    show B s2.loops (fnOf s2 mainFn).code = _
+    rw [hcodeM, hloops]; simp only [B, List.map_append]
+  have huniq : LoopsUnique (fnB s2 mainFn).code := by
+    apply loopsUnique_of_nodup
+    show (lids (B s2.loops (fnOf s2 mainFn).code)).Nodup
+    rw [lids_B, hcodeM]; exact nodup_of_idsIn hidsM
+  have hstep : StepVerified (fnB s2 mainFn) (mainAnn (B s1.loops old).length as) :=
+    main_stepVerified _ _ _ as hBM hfrag huniq
+  rw [B_length] at hstep
+  have hlenas : as.length = code.length + 1 := by have := hfrag.1; rw [B_length] at this; exact this
+  let a0 : Act := ⟨mainFn, mainAnn old.length as, [], s1.linear.length, 0⟩
+  let b : Base := ⟨[], s1.linear, [], mainFn, 0, true⟩
+  have hpc2 : s2.pc = (old.length : Int) := by rw [hs2, hold']; exact hpc
+  have hd2 : s2.data = [] := by rw [hs2]; exact hd
+  have ha2 : s2.addr = [] := by rw [hs2]; exact ha
+  have hl2 : s2.linear = s1.linear := by rw [hs2]; rfl
+  have hc2 : s2.curfunc = mainFn := by rw [hs2]; rfl
+  have hact : ActOK s2 a0 := by
+    refine ⟨hstep, fun h => absurd rfl h, ?_, fun h => absurd rfl h, by rw [hmain]; exact hu, ?_, ?_⟩
+    · show (mainAnn old.length as).length = (fnB s2 mainFn).code.length + 1
+      rw [hBM]; simp only [mainAnn, List.length_append, List.length_replicate, List.length_map, B_length, hlenas]; omega
+    · have := hw2.two; show 0 < s2.fns.length; omega
+    · show AllOK (szS s2) (fnOf s2 mainFn).code
+      rw [hcodeM, hsz, hold']; exact AllOK.append hold hcode
+  have hrun : Running b s2 a0 [] := by
+    refine ⟨hc2, by rw [hpc2]; exact Int.natCast_nonneg _, ?_, hact, ⟨by rfl, by rfl, ?_⟩, by rw [hl2]; exact List.suffix_refl _⟩
+    · apply inv_mk (s' := restState) (own' := [])
+      · refine ⟨restState, ?_, le_refl _⟩
+        show annAt (mainAnn old.length as) s2.pc.toNat = _
+        rw [hpc2]
+        have := annAt_mainAnn_ge old.length as 0
+        simp only [Nat.add_zero] at this
+        rw [Int.toNat_natCast, this, h0]
+      · show s2.data.map cellOf = _; rw [hd2]; rfl
+      · exact Conc.base 0
+      · show s2.linear.length = _; rw [hl2]; rfl
+      · show s2.addr.length = _; rw [ha2]; rfl
+    · show (if true = true then s2.addr = [] else _)
+      rw [if_pos rfl]; exact ha2
+  -- the run
+  cases fuel with
+  | zero => simp only [VM.run, run_throw] at hex; cases hex
+  | succ n =>
+    rw [run_succ_eq] at hex
+    simp only [run_bind, run_capture] at hex
+    rcases hl : (runLoop n (captureOf s2)).run s2 with ⟨r, s3⟩
+    rw [hl] at hex
+    cases r with
+    | error e => cases hex
+    | ok u =>
+      obtain ⟨hh3, hst3, he3⟩ := main_loop b a0 rfl n _ s2 s3 ⟨hw2, [], a0, [], hrun, rfl⟩ hl
+      obtain ⟨hw3, hr3, ha3⟩ := main_end hh3 hst3
+      -- where the loop stopped: at the end of `mainfunc`
+      have hok3 := hr3.ok
+      have hlen3 : (fnOf s3 mainFn).code.length = old.length + code.length := by
+        have h1 := hok3.len
+        have : (fnB s3 mainFn).code.length = (fnOf s3 mainFn).code.length := by
+          show (B s3.loops (fnOf s3 mainFn).code).length = _; rw [B_length]
+        show (fnOf s3 a0.f).code.length = _
+        rw [← this]
+        have h2 : (mainAnn old.length as).length = old.length + (code.length + 1) := by
+          simp only [mainAnn, List.length_append, List.length_replicate, List.length_map, hlenas]
+        have h1' : (mainAnn old.length as).length = (fnB s3 mainFn).code.length + 1 := h1
+        omega
+      have hc3 : s3.curfunc = mainFn := hr3.cur
+      obtain ⟨a, own, hann, hdata, hconc, hsc, _⟩ := hr3.inv
+      have hpcn := hr3.pc
+      have hge : old.length + code.length ≤ s3.pc.toNat := by
+        rcases hst3 with h | h
+        · rcases h with h | h
+          · omega
+          · have hcs : curSize s3 = ((fnOf s3 mainFn).code.length : Int) := by
+              have hu3 : (fnOf s3 mainFn).user = false := hok3.user
+              simp [curSize, hu3, hc3]
+            rw [hcs, hlen3] at h
+            omega
+        · rw [hc3] at h
+          have := List.getElem?_eq_none_iff.mp h
+          omega
+      have hlt : s3.pc.toNat < old.length + (code.length + 1) := by
+        have hpa : (absC s3).pc = s3.pc.toNat := rfl
+        rw [hpa] at hann
+        unfold annAt at hann
+        rcases Nat.lt_or_ge s3.pc.toNat (mainAnn old.length as).length with h' | h'
+        · simpa [mainAnn, hlenas] using h'
+        · rw [List.getElem?_eq_none_iff.mpr h'] at hann; cases hann
+      have hpceq : s3.pc.toNat = old.length + code.length := by omega
+      have haτ : a = τ := by
+        have hpa : (absC s3).pc = s3.pc.toNat := rfl
+        rw [hpa, hpceq, annAt_mainAnn_ge, hτ] at hann
+        cases hann; rfl
+      subst haτ
+      rw [hfr] at hconc
+      have hown : own = List.replicate a.base .val := by cases hconc; rfl
+      have hdata3 : s3.data.map cellOf = List.replicate a.base .val := by
+        have : (absC s3).data = s3.data.map cellOf := rfl
+        rw [← this, hdata, hown]; exact List.append_nil _
+      have hlin3 : s3.linear = s1.linear := by
+        apply eq_of_suffix_length hr3.lin
+        have : (absC s3).sc = s3.linear.length := rfl
+        rw [← this, hsc, hk]; rfl
+      have hmain3 : fnOf s3 mainFn = fnOf s2 mainFn := he3.fnOf mainFn (by have := hw2.two; show 0 < s2.fns.length; omega)
+      have hm3 : MainOK s3 := by
+        refine ⟨hok3.user, hok3.code, ?_, ?_⟩
+        · rw [hmain3, hcodeM]
+          exact idsIn_mono hidsM (Nat.le_refl _) (by rw [← hloops]; exact he3.loops_len)
+        · rw [hmain3, hcodeM, List.length_append]
+          have := hr3.pc
+          omega
+      simp only at hex
+      unfold runTail at hex
+      simp only [run_bind, run_get] at hex
+      rcases hdd : s3.data with _ | ⟨c, rest⟩
+      · simp only [hdd, List.isEmpty_nil, if_true, run_bind, Sim.run_pushData, run_popData] at hex
+        cases hex
+        exact ⟨hw3.setData [] s3.pc (fun c hc => by cases hc), ⟨hm3.user, hm3.code, hm3.ids, hm3.pc⟩, rfl, hlin3, ha3, hw3.loopstack, hc3, rfl⟩
+      · rw [hdd] at hdata3
+        have hb1 : a.base = 1 ∧ rest = [] ∧ cellOf c = .val := by
+          rcases Nat.lt_or_ge a.base 1 with h | h
+          · have : a.base = 0 := by omega
+            rw [this] at hdata3; simp at hdata3
+          · have : a.base = 1 := by omega
+            rw [this] at hdata3
+            simp only [List.map_cons, List.replicate_one, List.cons.injEq, List.map_eq_nil_iff] at hdata3
+            exact ⟨this, hdata3.2, hdata3.1⟩
+        obtain ⟨_, hrest, hcell⟩ := hb1
+        subst hrest
+        cases c with
+        | none =>
+          simp only [hdd, List.isEmpty_cons, Bool.false_eq_true, if_false, run_pure, run_popData] at hex
+          cases hex
+        | some w =>
+          simp only [hdd, List.isEmpty_cons, Bool.false_eq_true, if_false, run_pure, run_popData] at hex
+          cases hex
+          exact ⟨hw3.setData [] s3.pc (fun c hc => by cases hc), ⟨hm3.user, hm3.code, hm3.ids, hm3.pc⟩, rfl, hlin3, ha3, hw3.loopstack, hc3,
+            vok_of_cell (hw3.data_head hdd) hcell⟩
 
 end ZygoVerif.RunInv
